@@ -141,7 +141,7 @@ PROPS['C08'] = {
                '(Verus, unit attrs, value strings of ANY length) USERNAME / REALM / NONCE / SOFTWARE / ALTERNATE-DOMAIN: accepted <=> type code, length limit (513 / 763 / none), valid UTF-8; the text encodes to exactly the value bytes. ERROR-CODE: accepted <=> 4..=767 bytes, class 3..6, number <= 99, UTF-8 reason; code and reason exposed. PASSWORD-ALGORITHM(S): accepted <=> positive multiple of 4, every entry algorithm 1|2 with empty parameters; list exposed in order. PRIORITY, USE-CANDIDATE, ICE-CONTROLLED/-CONTROLLING, USERHASH, MESSAGE-INTEGRITY(-SHA256) also in Verus; wrong type => WrongAttributeImplementation',
                '(Verus, unit writers) ERROR-CODE encodes as 00 00 class=code/100 number=code%100 + UTF-8 reason; UNKNOWN-ATTRIBUTES as the listed types, 16 bits big-endian, in order (list of ANY length); PASSWORD-ALGORITHMS as (algorithm, 0) entries in order (list of ANY length); length() of the three under the no-overflow type invariant len_ok',
                '(Verus) encode side within reach: RawAttribute::new; USERNAME/REALM/NONCE/SOFTWARE get_type, length() == UTF-8 byte length, to_raw() carries the type code and exactly the UTF-8 bytes, getters return the text'],
-    'bounded': ['(in-place writers of 15 types + raw attributes are proved in unit writers, see C12) to_raw of ERROR-CODE / UNKNOWN-ATTRIBUTES / PASSWORD-ALGORITHMS, constructors (vstd specifies str::len only for ASCII): BX; UNKNOWN-ATTRIBUTES decoder (chunks_exact iterator): Kani bounded (values of 0..=8 bytes) + BX, all lengths 0..=800 with ASCII / multi-byte UTF-8 / invalid UTF-8 fillers'],
+    'bounded': ['(in-place writers of 15 types + raw attributes and to_raw of the 8 variable-length types are proved in units writers / attrs, see C12) constructors X::new(&str) (vstd specifies str::len only for ASCII): BX; UNKNOWN-ATTRIBUTES decoder (chunks_exact iterator): Kani bounded (values of 0..=8 bytes) + BX, all lengths 0..=800 with ASCII / multi-byte UTF-8 / invalid UTF-8 fillers'],
     'trusted': _KX_TRUST,
 }
 PROPS['C12'] = {
@@ -156,8 +156,9 @@ PROPS['C12'] = {
                '(Verus) RawAttribute::to_bytes == the same padded TLV; to_raw() of the string types carries the type and exactly the value bytes (unit attrs) - so in-place writing and raw conversion + serialisation give identical bytes',
                '(Kani, complete) fixed-size types incl. FINGERPRINT, XOR-MAPPED-ADDRESS, ALTERNATE-SERVER, PASSWORD-ALGORITHM: write_into == RFC layout == to_raw(); every shorter destination => TooSmall, destination untouched',
                '(Verus, unit builder, attribute lists of ANY length) MessageBuilder::write_into: a destination shorter than byte_len() => Err(TooSmall{expected: byte_len, actual}) and nothing written; an exact or larger one receives header + TLVs, the length is reported and nothing beyond it is touched',
+               '(Verus, unit writers / attrs) to_raw() of ERROR-CODE, UNKNOWN-ATTRIBUTES, PASSWORD-ALGORITHMS (lists of any length; RawAttribute::new_owned) and of the five string types has the same type and exactly the value bytes of the in-place writer - with RawAttribute::to_bytes == tlv_bytes this is "writing in place and converting to raw and serialising give the same bytes" for 8 variable-length types + raw; the fixed-size types by Kani',
                '(Verus, unit builder) borrowed -> owned: Data::into_owned, DataSlice::to_owned, RawAttribute::into_owned keep header and value bytes; AttrOrRaw::into_owned turns a typed attribute into a raw one of the same type and value (over the to_raw contract) - so the owned element serialises to the same TLV'],
-    'bounded': ['MessageBuilder::into_owned applies AttrOrRaw::into_owned to every element in order (into_iter().map().collect()), clone(): BX', 'to_raw() of ERROR-CODE, UNKNOWN-ATTRIBUTES, PASSWORD-ALGORITHMS (Vec::with_capacity/extend/into_boxed_slice; their in-place writers are proved): BX', 'MessageBuilder build() == write_into() bytes, byte_len (iterator sum; assumed in VX), into_owned/clone (dyn AttributeWrite -> to_raw): BX'],
+    'bounded': ['MessageBuilder::into_owned applies AttrOrRaw::into_owned to every element in order (into_iter().map().collect()), clone(): BX', 'MessageBuilder build() == write_into() bytes, byte_len (iterator sum; assumed in VX), into_owned/clone (dyn AttributeWrite -> to_raw): BX'],
     'trusted': _KX_TRUST,
 }
 
@@ -295,11 +296,11 @@ LEVEL_TEXT = {
  'C05': "Exploration: whole-view postconditions of send / handle_stun / take_outstanding_request / request_transaction / cancel / StunRequestState::poll and the exactly-once theorem over them are proved by Verus; the one link that is not (StunAgent::poll's `values_mut` loop, which turns a per-request verdict into removal) is decided by the bounded stand-in stepping the real agent against an abstract agent - so the property as a whole is claimed at exploration.",
  'C06': "Exploration: the per-request schedule (StunRequestState::new defaults and poll for schedules of any length and all instants) is proved by Verus; configure_timeout (iterator map/fold over Duration) and the agent-level minimum over transactions are bounded (exhaustive configuration grid driven by on-time polls, random histories with early/exact/late polls at microsecond resolution).",
  'C07': "Proof: handle_stun's postcondition (delivered => outstanding and, if the request was sealed, remote credentials set and validate_integrity Ok; otherwise Drop with the whole abstract state unchanged) and request_had_credentials <=> builder has an integrity attribute are verified by Verus for all inputs; validate_integrity itself is C04. End-to-end with real HMACs is bounded.",
- 'C08': "Exploration: decode side proved - 14 typed decoders in Verus for value strings of ANY length (UTF-8 via vstd::utf8), 5 in Kani (complete); encode side proved for to_raw/length of the string types and the in-place writers of 15 types (C12). Still bounded only: UNKNOWN-ATTRIBUTES decoder (chunks_exact), to_raw of ERROR-CODE / UNKNOWN-ATTRIBUTES / PASSWORD-ALGORITHMS, constructors - hence exploration.",
+ 'C08': "Exploration: decode side proved - 14 typed decoders in Verus for value strings of ANY length (UTF-8 via vstd::utf8), 5 in Kani (complete); encode side proved for to_raw/length of the string types and the in-place writers of 15 types (C12). Still bounded only: UNKNOWN-ATTRIBUTES decoder (chunks_exact: no vstd specification, and the ghost-iterator traits cannot be implemented for a std type from outside vstd), the &str constructors - hence exploration.",
  'C09': "Proof: an accepted buffer with a FINGERPRINT at offset o satisfies value == crc32(bytes[..o] with length field o+8-20) ^ 0x5354554e and o+8 == len (clause fp_ok of wf_message, verified for all buffers); XOR constant by Kani for all 2^32 values. That Fingerprint::compute is CRC-32/ISO-HDLC, the builder side and the corruption sweeps are bounded.",
  'C10': "Proof: the iterator is verified to yield exactly the exposure rule of the statement on every accepted message; the 'hence' clauses (non-sealing exposed attributes lie before the end of the first integrity attribute; prefix stability) are spec-level lemmas; validate_integrity checks an exposed attribute over that prefix (C04). Lookups through `find`/`any` are bounded.",
  'C11': "Exploration: the four guard functions of the real MessageBuilder are verified by Verus against the ordering rules of the statement (refused exactly when ..., refused => builder unchanged, accepted => appended), but over ASSUMED contracts for the two iterator-adaptor query helpers and the two sealing workers (SmallVec/dyn/HMAC are outside the verifier); those assumptions and the whole-sequence statement are decided by exhaustive operation sequences up to length 5/6 over the sealing alphabet plus random programs on the real builder - hence exploration.",
- 'C12': "Exploration: for raw attributes and 15 typed attributes the in-place writer, the size guard of write_into and to_bytes are proved equal to the RFC TLV layout for values of any length (Verus), 4 more types by Kani; MessageBuilder::write_into's guard / exact-or-larger / nothing-beyond clauses are proved for attribute lists of any length (Verus). to_raw() of ERROR-CODE/UNKNOWN-ATTRIBUTES/PASSWORD-ALGORITHMS, build() vs write_into and into_owned()/clone() are bounded - hence exploration.",
+ 'C12': "Exploration: for raw attributes and 15 typed attributes the in-place writer, the size guard of write_into and to_bytes are proved equal to the RFC TLV layout for values of any length (Verus), 4 more types by Kani; MessageBuilder::write_into's guard / exact-or-larger / nothing-beyond clauses are proved for attribute lists of any length (Verus). build() vs write_into (iterator sum), MessageBuilder::into_owned()/clone() (iterator map/collect) are bounded - hence exploration.",
  'C13': "Proof: complete Kani harnesses over all IPv4/IPv6 addresses x ports x transaction ids (fixed trip-count loops unwound with assertions): round trip, RFC wire bytes, other transaction id.",
  'C14': "Proof: push_data/pull_data/take verified against the abstract pull step; the stream-level statement (any frame list, any chunking, any interleaving) is theorem_history, an induction over those contracts (unique decoding of the length-prefixed stream).",
  'C15': "Proof: whole-set postconditions on validated_peers for every operation in Verus and theorem_peers (monotone; validated exactly by an Incoming/Deliver event from that address). StunAgent::poll never names the set (bounded confirmation).",
